@@ -2,6 +2,7 @@
 //! Built against /repo's working tree with --cfg ark_bulletproofs_verif and the instrumented Merlin.
 mod ast;
 mod comp_batch;
+mod comp_gens;
 mod comp_hostile;
 mod comp_ipp;
 mod comp_lc;
@@ -90,6 +91,17 @@ fn gen_lc_curve<G: AffineRepr>(curve: &str, ci: u64, seed: u64, tier: &str, sink
         sink.order.push((sh, id.clone()));
         sink.impl_obs.push_str(&format!("{} 1 {}\n", id, terms.join(" ")));
         sink.summary.push_str(&format!("{} {} tag=lc-tree prover=0 basis=1,0 nterms={}\n", id, curve, terms.len() / 3));
+    }
+}
+
+fn gen_gens_curve<G: AffineRepr>(curve: &str, ci: u64, seed: u64, tier: &str, sink: &mut Sink) {
+    for o in comp_gens::gen_and_run::<G>(curve, ci, seed, tier) {
+        let sh = sink.next % sink.shards.len();
+        sink.next += 1;
+        sink.shards[sh].push_str(&o.coq);
+        sink.order.push((sh, o.id.clone()));
+        sink.impl_obs.push_str(&o.obs);
+        sink.summary.push_str(&o.summary);
     }
 }
 
@@ -215,6 +227,14 @@ fn cmd_gen(args: &[String]) {
             }
             fs::write(format!("{}/msm2_in.txt", out), msm2).unwrap();
         }
+        "gens" => {
+            for (ci, curve) in CURVES.iter().enumerate() {
+                if !curves_s.split(',').any(|c| c == *curve) {
+                    continue;
+                }
+                with_curve!(*curve, gen_gens_curve, curve, ci as u64, seed, &tier, &mut sink);
+            }
+        }
         "lc" => {
             for (ci, curve) in CURVES.iter().enumerate() {
                 if !curves_s.split(',').any(|c| c == *curve) {
@@ -230,6 +250,7 @@ fn cmd_gen(args: &[String]) {
         "batch" => "Require Import BP.Run.R1cs.\nSet Printing Width 2000000000.\nSet Printing Depth 2000000000.\n",
         "ipp" => "Require Import BP.Run.Ipp.\nSet Printing Width 2000000000.\nSet Printing Depth 2000000000.\n",
         "ped" => "Require Import BP.Run.Ped.\nSet Printing Width 2000000000.\nSet Printing Depth 2000000000.\n",
+        "gens" => "Require Import BP.Run.Gens.\nSet Printing Width 2000000000.\nSet Printing Depth 2000000000.\n",
         "lc" => "Require Import BP.Run.Lc.\nSet Printing Width 2000000000.\nSet Printing Depth 2000000000.\n",
         _ => "",
     };
